@@ -14,15 +14,26 @@ Item(p, k, w, t) == [prop |-> p, kind |-> k, where |-> w, tags |-> t]
 
 Untied(keys, p) == \A q \in DOMAIN keys : q # p => keys[q] # keys[p]
 
+\* runs = one fresh OS process each; inproc = the same API call repeated inside one process. All are compared with the
+\* first fresh run. A difference that only shows up under in-process repetition is reported as such; for the
+\* graphConnectedCall smell it is the known accumulation inside the vendored bad-smell-analysis library (tag).
+Bad(r, rs, base) ==
+  LET collBad == {i \in DOMAIN rs : Bag(rs[i].items) # Bag(base.items)}
+      orderBad == IF ~r.ordered THEN {}
+                  ELSE {i \in DOMAIN rs \ collBad :
+                          \/ Len(rs[i].keys) # Len(base.keys)
+                          \/ \E p \in DOMAIN base.keys : Untied(base.keys, p) /\ rs[i].items[p] # base.items[p]}
+  IN  [coll |-> collBad, order |-> orderBad]
+
 DiffReport(r) ==
   LET base == r.runs[1]
-      collBad == {i \in DOMAIN r.runs : Bag(r.runs[i].items) # Bag(base.items)}
-      orderBad == IF ~r.ordered THEN {}
-                  ELSE {i \in DOMAIN r.runs \ collBad :
-                          \/ Len(r.runs[i].keys) # Len(base.keys)
-                          \/ \E p \in DOMAIN base.keys : Untied(base.keys, p) /\ r.runs[i].items[p] # base.items[p]}
-  IN  (IF collBad = {} THEN {} ELSE {Item("C08", "collection-differs-between-runs", r.name \o " runs " \o ToString(collBad), {})}) \cup
-      (IF orderBad = {} THEN {} ELSE {Item("C08", "promised-order-differs-between-runs", r.name \o " runs " \o ToString(orderBad), {})})
+      f == Bad(r, r.runs, base)
+      g == Bad(r, r.inproc, base)
+      tags == IF r.name \in {"bad-smells-graphConnectedCall", "bad-smells-sorted-graphConnectedCall"} THEN {"bs.graphConnectedCall.in-process-repetition"} ELSE {}
+  IN  (IF f.coll = {} THEN {} ELSE {Item("C08", "collection-differs-between-runs", r.name \o " runs " \o ToString(f.coll), {})}) \cup
+      (IF f.order = {} THEN {} ELSE {Item("C08", "promised-order-differs-between-runs", r.name \o " runs " \o ToString(f.order), {})}) \cup
+      (IF g.coll = {} THEN {} ELSE {Item("C08", "collection-differs-on-repetition-in-one-process", r.name \o " repetitions " \o ToString(g.coll), tags)}) \cup
+      (IF g.order = {} THEN {} ELSE {Item("C08", "promised-order-differs-on-repetition-in-one-process", r.name \o " repetitions " \o ToString(g.order), tags)})
 
 Diff(rec) ==
   IF rec.panic THEN {Item("C08", "panic", rec.note, {})}
